@@ -281,18 +281,22 @@ CLAIMED = {
     ),
     "C15": dict(
         category="other",
-        text=("Two of the four clauses are theorems about the line-level Coq model of _intersect_all and the repaired "
-              "_span_freqs (Props/C15.v, closed under the global context, every corpus within the limits, every batch size, "
-              "phrase and slop): the result has one natural-number entry per row, and every matching document contains each "
-              "of the phrase's terms. The other two (an exact match stays a match; distinct terms with length+slop <= 18: an "
-              "in-order window matches) are NOT proved: they are decided on every run by the extracted clause oracle "
-              "(Span/Span_Spec.v) on implementation and model over structured near-miss corpora, hence the level `other`. "
-              "The model (512-slot span table, compaction, give-up path, min-popcount fallback, compiled 32-bit position "
-              "mask) is compared with the real termfreqs(slop=s) on every generated case."),
-        design_ref="DESIGN.md 7 (C15)",
-        note=COMMON_NOTE + "Slop search is documented as experimental; the check found and the repo now repairs two "
-             "defects (exhausted-term read, cross-document cursor drift). No axioms.",
-        technique="Coq proof for two clauses (cursor / segment invariants) + clause oracle and model/impl correspondence for the other two",
+        text=("Theorems about the line-level Coq model of _intersect_all and the repaired _span_freqs (Props/C15.v, closed under "
+              "the global context, every corpus within the limits, every batch size, phrase and slop): the result has one "
+              "natural-number entry per row; every matching document contains each of the phrase's terms; an exact match "
+              "stays a match PROVIDED the positions of the phrase's terms in the document are pairwise distinct modulo 64 "
+              "(C15_exact_match_kept_partial; e.g. every document of at most 64 tokens). Without that proviso the clause "
+              "is FALSE for the model and for the code (C15_exact_match_refuted): this is KNOWN FINDING D27, reported by "
+              "the check as KNOWN-FINDING (the check attributes a violation to it only when the implementation agrees with "
+              "the faithful model and the stale-bit-clearing variant Span/Span_Variant.v satisfies the clauses on that input; "
+              "anything else is a VIOLATION). The window clause is not proved: it is decided, like all clauses, on every run "
+              "by the extracted clause oracle (Span/Span_Spec.v) on implementation and model over structured near-miss "
+              "corpora. Level `other` because two of the four clauses are not theorems."),
+        design_ref="DESIGN.md 7 (C15), 0 (D21-D27)",
+        note=COMMON_NOTE + "Slop search is documented as experimental; the check found and the repo now repairs six defects "
+             "in it (D16, D21, D22, D24, D25, D26); D27 is recorded, not repaired (known_findings.json). No axioms.",
+        technique="Coq proof for 2.5 clauses (cursor / segment invariants, span-table invariant) + clause oracle and "
+                  "model/impl correspondence for the rest; known finding classified by a variant model",
     ),
 
     "C19": dict(
